@@ -69,7 +69,11 @@ def _initial_state(rng, dims, qubits_in_order, dtype):
         vecs = [np.array([1, 1]) / np.sqrt(2), np.array([1, -1]) / np.sqrt(2), np.array([1, 1j]) / np.sqrt(2),
                 np.array([1, -1j]) / np.sqrt(2), np.array([1, 0]), np.array([0, 1])]
         ch = [int(rng.integers(6)) for _ in dims]
-        ps = cirq.ProductState({q: kets[c] for q, c in zip(qubits_in_order, ch)})
+        # (the factors name their qubits: the order in which they are listed carries no meaning)
+        items = list(zip(qubits_in_order, ch))
+        if rng.random() < 0.6:
+            items = [items[int(i)] for i in rng.permutation(len(items))]
+        ps = cirq.ProductState({q: kets[c] for q, c in items})
         v = L.kron(*[vecs[c].reshape(2, 1) for c in ch]).reshape(-1)
         return ps, v, "product"
     v = L.random_state(rng, D)
